@@ -7,7 +7,8 @@
    C08_partial: the on-grid invariant of balances over whole histories (correspondence check + monitor). *)
 From Coq Require Import ZArith QArith List.
 From Basana Require Import Num.DecQ Num.DecQProofs Exchange.Model Exchange.OrderProofs Exchange.FeeProofs
-     Exchange.LifeProofs Exchange.Prims Exchange.Structure Exchange.LedgerProofs Exchange.BarLiquidity.
+     Exchange.LifeProofs Exchange.Prims Exchange.Structure Exchange.LedgerProofs Exchange.BarLiquidity
+     Exchange.Reconfig Exchange.ReconfigProofs.
 Import ListNotations.
 Open Scope Q_scope.
 
@@ -68,3 +69,17 @@ Example C08_bar_nonvacuous :
   | Fail _ _ => False
   end.
 Proof. vm_compute. reflexivity. Qed.
+
+(* the precision a fill is rounded with is the one configured when the fill happens: the setters of the exchange take
+   effect from the next operation on (the model looks the pair up afresh in every operation, like Config.get_pair_info) *)
+Theorem C08_set_pair_info_takes_effect_at_once : forall c pr bq,
+  get_pair_info (reconf c (XPairInfo pr bq)) pr = Ok bq.
+Proof. exact set_pair_info_effective. Qed.
+Print Assumptions C08_set_pair_info_takes_effect_at_once.
+
+Theorem C08_set_symbol_precision_takes_effect_at_once : forall c p b q,
+  fst p <> snd p -> lookup_pair (c_pair_info c) p = None ->
+  (lookup_sym (c_sym_prec c) (snd p) = Some q -> get_pair_info (reconf c (XSymPrec (fst p) b)) p = Ok (b, q)) /\
+  (lookup_sym (c_sym_prec c) (fst p) = Some b -> get_pair_info (reconf c (XSymPrec (snd p) q)) p = Ok (b, q)).
+Proof. exact set_symbol_precision_effective. Qed.
+Print Assumptions C08_set_symbol_precision_takes_effect_at_once.
